@@ -1212,17 +1212,52 @@ def _culprit(t) -> str:
     return "+".join(sorted(acc)) or "arith"
 
 
-def falsify_steady(mm, fails, info_counts):
+def build_steady_plan(m, plan_spec):
+    """plan_spec: {"fix_level": [names], "fix_change": [names]} through the public SteadyPlan methods"""
+    import irispie as ir
+    plan = ir.SteadyPlan(m)
+    if plan_spec.get("fix_level"):
+        plan.fix_level(tuple(plan_spec["fix_level"]))
+    if plan_spec.get("fix_change"):
+        plan.fix_change(tuple(plan_spec["fix_change"]))
+    return plan
+
+
+def gen_steady_plan_spec(rng, xs, ys=()) -> dict:
+    """a random steady plan: any subset of the levels and - independently - of the changes is fixed (asymmetric on
+    purpose: the unknown vector is [iterated levels | iterated changes], the full Jacobian [all levels | all changes])"""
+    names = list(xs) + list(ys)
+    while True:
+        fl = [n for n in names if rng.random() < 0.45]
+        fc = [n for n in names if rng.random() < 0.35]
+        if (fl or fc) and (len(fl) < len(names) or len(fc) < len(names)):
+            return {"fix_level": fl, "fix_change": fc}
+
+
+def _plan_tag(plan_spec) -> str:
+    if not plan_spec:
+        return ""
+    return ":plan[" + ("L" if plan_spec.get("fix_level") else "") + ("C" if plan_spec.get("fix_change") else "") + "]"
+
+
+def falsify_steady(mm, fails, info_counts, plan_spec=None):
     if mm.spec.get("special") in REJECTED_SNIPPETS:
         return
     m = mm.m.copy()
     try:
-        ev = capture_steady(m)
-    except Exception:  # noqa
+        kw = {"plan": build_steady_plan(m, plan_spec)} if plan_spec else {}
+        ev = capture_steady(m, **kw)
+    except Exception as e:  # noqa
+        if plan_spec:
+            info_counts["steady_plan_setup_failed"] = info_counts.get("steady_plan_setup_failed", 0) + 1
         return
     if ev is None:
         return
+    if plan_spec:
+        info_counts["steady_with_plan"] = info_counts.get("steady_with_plan", 0) + 1
     g = np.array(ev.get_init_guess(), dtype=float)
+    if g.size == 0:
+        return
 
     def F(q):
         with quiet():
@@ -1261,16 +1296,21 @@ def falsify_steady(mm, fails, info_counts):
         kind = "flat" if type(ev).__name__.startswith("Flat") else "nonflat"
         block = "t" if r < len(eqs) else "t+k"
         fails.append(Failure(
-            f"steady:{kind}:{block}:{_culprit(opaque_tree(eqs[r % len(eqs)].xtring))}",
-            f"steady Jacobian ({kind}) entry [{r},{c}] (residual block {block}) is not the derivative of eval_func",
+            f"steady:{kind}{_plan_tag(plan_spec)}:{block}:{_culprit(opaque_tree(eqs[r % len(eqs)].xtring))}",
+            f"steady Jacobian ({kind}{', steady plan ' + str(plan_spec) if plan_spec else ''}) entry [{r},{c}] "
+            f"(residual block {block}; unknown {c} of [iterated levels | iterated changes]) is not the derivative of eval_func",
             dict({"source": spec_source(mm.spec), "assign": mm.spec["values"], "flat": mm.spec["flat"]},
+                 **({"steady_plan": plan_spec} if plan_spec else {}),
                  **({"context_src": mm.spec["context_src"]} if mm.spec.get("context_src") else {})),
             float(J[r, c]), float(W[r, c]),
-            "m = irispie.Simultaneous.from_string(source, flat=flat); m.assign(**assign); m.steady(split_into_blocks=False) "
+            "m = irispie.Simultaneous.from_string(source, flat=flat); m.assign(**assign); p = irispie.SteadyPlan(m); "
+            "p.fix_level(steady_plan['fix_level']); p.fix_change(steady_plan['fix_change']); "
+            "m.steady(split_into_blocks=False, plan=p) "
             "-> SteadyEvaluator.eval_jacob(init) vs central differences of eval_func"))
 
 
-def falsify_stacked(mm, rng, fails, info_counts, force_terminal=None, plan_spec=None, nper=None):
+def falsify_stacked(mm, rng, fails, info_counts, force_terminal=None, plan_spec=None, nper=None, point_shifts=None,
+                    data_seed=None):
     """plan_spec: None = no plan, "random" = draw one, or an explicit list (replay)"""
     if mm.spec.get("special") in REJECTED_SNIPPETS:
         return
@@ -1293,8 +1333,11 @@ def falsify_stacked(mm, rng, fails, info_counts, force_terminal=None, plan_spec=
             m = mm.m.copy()
     if plan_spec == "random":
         plan_spec = gen_plan_spec(rng, mm.spec, nper)
+    if data_seed is None:
+        data_seed = rng.randrange(2 ** 31)
+    import random as _random
     try:
-        cap = capture_stacked(m, mm.spec, rng, nper, terminal, plan_spec or None)
+        cap = capture_stacked(m, mm.spec, _random.Random(data_seed), nper, terminal, plan_spec or None)
     except Exception as e:  # noqa
         if plan_spec:
             info_counts["plan_setup_failed"] = info_counts.get("plan_setup_failed", 0) + 1
@@ -1306,59 +1349,82 @@ def falsify_stacked(mm, rng, fails, info_counts, force_terminal=None, plan_spec=
         return
     if plan_spec:
         info_counts["stacked_with_plan"] = info_counts.get("stacked_with_plan", 0) + 1
-    g = cap["init_guess"]
+    g0 = cap["init_guess"]
     data = cap["data"]
 
     def F(q):
         with quiet():
             return np.array(cap["eval_func"](np.array(q, dtype=float), data), dtype=float).ravel()
-    try:
-        f0 = F(g)
-        with quiet():
-            J = np.array(cap["eval_jacob"](g, data).toarray(), dtype=float)
-    except Exception:  # noqa
-        return
-    if not np.all(np.isfinite(f0)) or not np.all(np.isfinite(J)):
-        return
     info = mm.info
     base = -info["min_shift"]
-    try:
-        arr = np.array(data, dtype=float)
-        for eid in info["teids"]:
-            t = info["trees"][eid]
-            if t == ("user",):
-                continue
-            toks = tree_vars(t)
-            for c in range(base, base + nper):
-                num_eval(t, {(q, s): float(arr[q, s + c]) for (q, s) in toks}, margin=0.08)
-    except (Inadmissible, IndexError, OverflowError, ZeroDivisionError, ValueError):
-        return
-    W = np.zeros_like(J)
-    for i in range(len(g)):
-        h = 1e-6 * max(1.0, abs(g[i]))
-        gp = g.copy(); gp[i] += h; gm = g.copy(); gm[i] -= h
-        W[:, i] = (F(gp) - F(gm)) / (2 * h)
-    F(g)
-    info_counts["stacked_models"] += 1
-    info_counts["cells"] += J.size
-    if not _fd_close(J, W):
-        r, c = np.unravel_index(int(np.argmax(np.abs(J - W))), J.shape)
-        neq = len(info["teids"])
-        eid = info["teids"][r % neq]
-        fails.append(Failure(
-            f"stacked:{terminal}{':plan' if plan_spec else ''}:{_culprit(info['trees'][eid])}",
-            f"stacked-time Jacobian entry [{r},{c}] (equation `{info['eqs'][eid].human}`, period {r // neq}, terminal={terminal}"
-            f"{', plan=' + str(plan_spec) if plan_spec else ''}) is not the derivative of eval_func",
-            dict({"source": spec_source(mm.spec), "assign": mm.spec["values"], "periods": nper, "terminal": terminal,
-                  "flat": bool(mm.spec.get("flat", False)), "plan": plan_spec or None,
-                  "solve_first": bool(mm.spec.get("stable", False))},
-                 **({"context_src": mm.spec["context_src"]} if mm.spec.get("context_src") else {})),
-            float(J[r, c]), float(W[r, c]),
-            "m.simulate(db, span, method='stacked_time', terminal=..., plan=PlanSimulate with the listed operations) -> "
-            "evaluator.eval_jacob vs central differences of eval_func"))
+    # The evaluator (and its terminator) is a stateful object used for a whole Newton run: eval_jacob is called SEVERAL
+    # times on the same object, at different points; every call must return the derivative of eval_func at ITS point.
+    shifts_used = list(point_shifts) if point_shifts is not None else _draw_point_shifts(rng, mm.spec)
+    points = [("first", g0)] + [("later", g0 + np.array([sh * max(abs(v), 0.5) for v in g0])) for sh in shifts_used]
+    for call, (tag, g) in enumerate(points):
+        try:
+            f0 = F(g)
+            with quiet():
+                J = np.array(cap["eval_jacob"](g, data).toarray(), dtype=float)
+        except Exception:  # noqa
+            return
+        if not np.all(np.isfinite(f0)) or not np.all(np.isfinite(J)):
+            if call == 0:
+                return
+            continue
+        try:
+            arr = np.array(data, dtype=float)
+            for eid in info["teids"]:
+                t = info["trees"][eid]
+                if t == ("user",):
+                    continue
+                toks = tree_vars(t)
+                for c in range(base, base + nper):
+                    num_eval(t, {(q, s): float(arr[q, s + c]) for (q, s) in toks}, margin=0.08)
+        except (Inadmissible, IndexError, OverflowError, ZeroDivisionError, ValueError):
+            # not an admissible point (domain edge or near a kink): nothing is demanded of THIS call, but it has been
+            # made - the later calls on the same evaluator must still be right
+            if call == 0 and point_shifts is None and not mm.spec.get("stable"):
+                return
+            continue
+        W = np.zeros_like(J)
+        for i in range(len(g)):
+            h = 1e-6 * max(1.0, abs(g[i]))
+            gp = g.copy(); gp[i] += h; gm = g.copy(); gm[i] -= h
+            W[:, i] = (F(gp) - F(gm)) / (2 * h)
+        F(g)
+        info_counts["stacked_models" if call == 0 else "stacked_later_calls"] = \
+            info_counts.get("stacked_models" if call == 0 else "stacked_later_calls", 0) + 1
+        info_counts["cells"] += J.size
+        if not _fd_close(J, W):
+            r, c = np.unravel_index(int(np.argmax(np.abs(J - W))), J.shape)
+            neq = len(info["teids"])
+            eid = info["teids"][r % neq]
+            fails.append(Failure(
+                f"stacked:{terminal}{':plan' if plan_spec else ''}{':later-call' if call else ''}:{_culprit(info['trees'][eid])}",
+                f"stacked-time Jacobian entry [{r},{c}] (equation `{info['eqs'][eid].human}`, period {r // neq}, terminal={terminal}"
+                f"{', plan=' + str(plan_spec) if plan_spec else ''}; call number {call + 1} of eval_jacob on the same evaluator, "
+                f"points = initial guess shifted by {[0.0] + shifts_used[:call]} x max(|v|, 0.5)) is not the derivative of eval_func",
+                dict({"source": spec_source(mm.spec), "assign": mm.spec["values"], "periods": nper, "terminal": terminal,
+                      "flat": bool(mm.spec.get("flat", False)), "plan": plan_spec or None,
+                      "solve_first": bool(mm.spec.get("stable", False)), "point_shifts": shifts_used[:call],
+                      "data_seed": data_seed},
+                     **({"context_src": mm.spec["context_src"]} if mm.spec.get("context_src") else {})),
+                float(J[r, c]), float(W[r, c]),
+                "m.simulate(db, span, method='stacked_time', terminal=..., plan=PlanSimulate with the listed operations) -> "
+                "evaluator.eval_jacob vs central differences of eval_func, at the initial guess and then at the shifted points, "
+                "all on the same evaluator object"))
+            return
 
 
-def gen_stable_spec(rng) -> dict:
+def _draw_point_shifts(rng, spec) -> list:
+    """relative shifts of the whole vector of unknowns for the later calls on the same evaluator: both directions, so that
+    occasionally binding terms (maximum/minimum) are met on one branch first and on the other afterwards"""
+    k = rng.choice([1, 2, 2, 3]) if spec.get("stable") else rng.choice([0, 1, 1, 2])
+    return [rng.choice([-1, 1]) * rng.choice([0.125, 0.25, 0.375, 0.5]) for _ in range(k)]
+
+
+def gen_stable_spec(rng, obc=False) -> dict:
     """a small model with a known steady state x = m (so that it can be solved and simulated with terminal='first_order')"""
     n = rng.randint(1, 3)
     xs = [f"x{i}" for i in range(n)]
@@ -1372,6 +1438,16 @@ def gen_stable_spec(rng) -> dict:
         nl = rng.choice([f"0.125*({o} - {means[o]!r})*({x}[-1] - {means[x]!r})",
                          f"0.25*(sqrt({o}/{means[o]!r}) - 1)", f"0.125*(maximum({o}, p0) - {means[o]!r})",
                          f"0.125*log({o}[+1]/{means[o]!r})", f"0.0625*(({o}/{means[o]!r})^2 - 1)"])
+        if obc and (i == 0 or rng.random() < 0.5):
+            # occasionally binding term: the ONLY lead of this equation sits inside maximum(), whose derivative is exactly
+            # zero on the inactive branch (kink constant c on either side of the steady state, 12-25% away from it)
+            c = means[o] * (1 + rng.choice([-1, 1]) * rng.choice([0.125, 0.1875, 0.25]))
+            at_ss = max(means[o], c)
+            term = rng.choice([f"{b!r}*(maximum({o}[+1], {c!r}) - {at_ss!r})",
+                               f"{b!r}*(maximum({o}[+1] - {c!r}, 0) - {at_ss - c!r})",
+                               f"{b!r}*(maximum(2*{o}[+1], {2 * c!r}) - {2 * at_ss!r})"])
+            teqs.append(f"{x} = {1 - a!r}*{means[x]!r} + {a!r}*{x}[-1] + {term} + e{i}")
+            continue
         teqs.append(f"{x} = {1 - a - b!r}*{means[x]!r} + {a!r}*{x}[-1] + {b!r}*{x}[{lead:+d}] + {nl} + e{i}")
     values = {x: (means[x], 1.0 if x in logs else 0.0) for x in xs}
     values["p0"] = 0.5
@@ -1383,8 +1459,8 @@ def falsify_terminal(ctx, fails, counts):
     """stacked-time Jacobian including the terminal-condition correction (fords/terminators.py)"""
     rng = ctx.rng
     done = 0
-    for _ in range(ctx.scale(16, 300)):
-        spec = gen_stable_spec(rng)
+    for _i in range(ctx.scale(16, 300)):
+        spec = gen_stable_spec(rng, obc=(_i % 2 == 1))
         try:
             m = build_model(spec)
             with quiet():
@@ -1653,6 +1729,22 @@ def falsify(ctx, hints):
             break
     for mm in models[: ctx.scale(50, 1200)]:
         falsify_steady(mm, fails, counts)
+    # steady plans fixing a subset of the levels and/or of the changes (asymmetric): the columns kept from the full
+    # Jacobian [all levels | all changes] must be those of the unknowns [iterated levels | iterated changes]
+    try:
+        wm = build_model(STEADY_WITNESS)
+        winfo = model_info(wm)
+        warr, woff = steady_data(wm, winfo)
+        wmm = SimpleNamespace(spec=STEADY_WITNESS, m=wm, info=winfo, rho=None, arr=warr, off=woff)
+        for _ in range(ctx.scale(14, 120)):
+            falsify_steady(wmm, fails, counts, plan_spec=gen_steady_plan_spec(rng, STEADY_WITNESS["xs"]))
+    except HarnessError:
+        raise
+    except Exception as e:  # noqa
+        counts.setdefault("witness_errors", []).append(f"{type(e).__name__}: {e}"[:120])
+    for mm in models[: ctx.scale(60, 1200)]:
+        if len(mm.spec["xs"]) + len(mm.spec["ys"]) >= 2:
+            falsify_steady(mm, fails, counts, plan_spec=gen_steady_plan_spec(rng, mm.spec["xs"], mm.spec["ys"]))
     for mm in models[: ctx.scale(50, 1200)]:
         falsify_stacked(mm, rng, fails, counts, plan_spec="random" if rng.random() < 0.4 else None)
     operand_grid_checks(ctx, fails, counts)
@@ -1700,7 +1792,7 @@ def replay(ctx, failure: dict):
         if key is None:
             pass
         elif key.startswith("steady"):
-            falsify_steady(mm, fails, counts)
+            falsify_steady(mm, fails, counts, plan_spec=inp.get("steady_plan"))
         elif key.startswith("stacked"):
             if inp.get("terminal") == "first_order":
                 try:
@@ -1710,9 +1802,10 @@ def replay(ctx, failure: dict):
                         mm.m.solve()
                 except Exception:  # noqa
                     pass
-            for _ in range(6):
+            for _ in range(1 if inp.get("data_seed") is not None else 6):
                 falsify_stacked(mm, ctx.rng, fails, counts, force_terminal=inp.get("terminal"),
-                                plan_spec=inp.get("plan"), nper=inp.get("periods"))
+                                plan_spec=inp.get("plan"), nper=inp.get("periods"),
+                                point_shifts=inp.get("point_shifts"), data_seed=inp.get("data_seed"))
         else:
             falsify_systemize(mm, fails, counts)
     finally:
